@@ -116,6 +116,7 @@ class SimFile(object):
         self.encoding = encoding or 'utf-8'
         self.closed = False
         self.pos = 0
+        self.pending = []
         if 'w' in mode:
             disk.files[name] = b''
             self.data = None
@@ -133,8 +134,11 @@ class SimFile(object):
         return False
 
     def close(self):
+        if 'w' in self.mode and not self.closed:
+            self.flush()
+        if not self.closed:
+            self.disk.closes += 1
         self.closed = True
-        self.disk.closes += 1
 
     def write(self, data):
         if self.closed:
@@ -147,9 +151,14 @@ class SimFile(object):
             if not isinstance(data, str):
                 raise TypeError('write() argument must be str, not %s' % type(data).__name__)
             raw = data.encode(self.encoding)
-        self.disk.files[self.name] += raw
+        self.pending.append(raw)          # buffered, like a real file object: on the disk image only after flush/close
         self.disk.writes += 1
         return len(data)
+
+    def flush(self):
+        if self.pending:
+            self.disk.files[self.name] += b''.join(self.pending)
+            self.pending = []
 
     def read(self, size=-1):
         if self.closed:
@@ -184,8 +193,10 @@ class SimDisk(object):
         self.writes = 0
         self.short = 0
         self.closes = 0
+        self.opens = 0
 
     def open(self, filename, mode='r', encoding=None):
+        self.opens += 1
         return SimFile(self, filename, mode or 'r', encoding)
 
 
@@ -230,3 +241,32 @@ def drive_concurrent(chunk_lists, make_operator, order):
             if not terms[i]:
                 terms[i].append(('escaped', e))
     return [(outs[i], terms[i][0] if terms[i] else None) for i in range(k)]
+
+
+def dump_then_load_on_completion(items, dump_operator, make_load, disk):
+    """Pushes the items through `dump_operator` from a hot Subject (no trampoline) and, from inside the completion
+    callback of that subscription, runs `make_load()` - 'an acknowledged write is readable': when the writer says it is
+    done, everything must be on the (simulated) disk and the file closed.
+    Returns (dump terminal, loaded items, load terminal, files still open at the moment of completion)."""
+    subject = Subject()
+    result = {'dump': None, 'items': [], 'load': None, 'open': None}
+
+    def done():
+        result['dump'] = ('completed',)
+        result['open'] = disk.opens - disk.closes
+        got, term = collect(make_load())
+        result['items'], result['load'] = got, term
+
+    def failed(e):
+        result['dump'] = ('error', e)
+    subject.pipe(dump_operator).subscribe(on_next=lambda i: None, on_error=failed, on_completed=done)
+    try:
+        for it in items:
+            subject.on_next(it)
+        subject.on_completed()
+    except Exception as e:
+        from .core import innermost_in_verif
+        if innermost_in_verif(e):
+            raise
+        result['dump'] = ('escaped', e)
+    return result['dump'], result['items'], result['load'], result['open']
